@@ -159,6 +159,8 @@ def make_traces(prop, tier, seed, workdir, drive):
     # S4: exhaustive search of the implementation to a small depth around prepared states
     from concurrent.futures import ThreadPoolExecutor
     names = ["fresh", "inflight", "answered", "paused", "between", "lastbatch", "oneshot", "module", "binding"]
+    if tier == "quick":
+        names = [n for n in names if n not in ("fresh", "lastbatch")]
     deeper = [] if tier == "quick" else ["-steps", "5"]      # thorough: one level deeper (binding: as configured)
     with ThreadPoolExecutor(max_workers=9) as ex:
         res = list(ex.map(lambda n: drive(["explore", "-in", n, "-n", "400000", "-out", os.path.join(workdir, "s4%s.ndjson" % n)]
